@@ -43,8 +43,8 @@ class Check(PropertyCheck):
             "(self/mutual loops, forward pointers, chains around the nesting limit), raw random; name cases: all pointer "
             "assignments over <=3 (quick) / 4 (thorough) name slots; expand cases: record data expansion at random "
             "windows. distinct = distinct case; non-trivial = not an empty buffer.")
-    budget = {"quick": 12000, "thorough": 300000}
-    time_budget = {"quick": 30, "thorough": 500}
+    budget = {"quick": 9000, "thorough": 300000}
+    time_budget = {"quick": 20, "thorough": 500}
     fingerprints = ["mitmproxy.net.dns.domain_names:_unpack_label_into", "mitmproxy.net.dns.domain_names:unpack_from_with_compression",
                     "mitmproxy.net.dns.domain_names:pack", "mitmproxy.net.dns.domain_names:_expand_name",
                     "mitmproxy.net.dns.domain_names:_expand_name_field", "mitmproxy.net.dns.domain_names:expand_record_data",
@@ -71,16 +71,21 @@ class Check(PropertyCheck):
         self._last = None
 
     # ------------------------------------------------------------------ generators
-    def _label(self, rng):
+    def _label(self, rng, clean=False):
         r = rng.randint(0, 99)
+        if clean:
+            if r < 70: return rng.pick(ASCII_LABELS)
+            if r < 85: return rng.pick(UNI_LABELS[:4])
+            return "".join(rng.pick("abcXYZ019-") for _ in range(rng.randint(1, 12)))
         if r < 60: return rng.pick(ASCII_LABELS)
         if r < 75: return rng.pick(UNI_LABELS)
         if r < 88: return rng.pick(ODD_LABELS)
         return "".join(rng.pick("abcXYZ019-") for _ in range(rng.randint(1, 12)))
 
-    def _name(self, rng):
+    def _name(self, rng, clean=False):
         if rng.chance(0.08): return ""
-        n = ".".join(self._label(rng) for _ in range(rng.randint(1, 4)))
+        n = ".".join(self._label(rng, clean) for _ in range(rng.randint(1, 4)))
+        if clean: return n
         if rng.chance(0.04): n += "."
         if rng.chance(0.03): n = "." + n
         return n
@@ -112,23 +117,24 @@ class Check(PropertyCheck):
         if r < 70: return b""
         return bytes(rng.getrandbits(8) for _ in range(rng.randint(1, 24)))
 
-    def _num(self, rng, top):
+    def _num(self, rng, top, clean=False):
         r = rng.randint(0, 99)
         if r < 70: return rng.randint(0, top)
-        if r < 90: return rng.pick([0, 1, top, top - 1, top // 2 + 1])
+        if r < 90 or clean: return rng.pick([0, 1, top, top - 1, top // 2 + 1])
         return top + rng.pick([1, 2, 1000])   # out of range: encoding must fail
 
     def _msg_case(self, rng):
+        clean = rng.chance(0.7)          # every field in range, names from the canonical pools, record data arbitrary
         flag = lambda: rng.randint(0, 1)
+        num = lambda top: self._num(rng, top, clean)
 
         def rr():
-            ty = rng.pick(TYPES) if rng.chance(0.85) else self._num(rng, U16)
-            return [hx(t2b(self._name(rng))), ty, self._num(rng, U16) if rng.chance(0.3) else 1, self._num(rng, U32),
-                    hx(self._rdata(rng, ty))]
+            ty = rng.pick(TYPES) if rng.chance(0.85) else num(U16)
+            return [hx(t2b(self._name(rng, clean))), ty, num(U16) if rng.chance(0.3) else 1, num(U32), hx(self._rdata(rng, ty))]
         sec = lambda p: [rr() for _ in range(rng.pick(p))]
         return {"op": "msg",
-                "hdr": [self._num(rng, U16), flag(), self._num(rng, 15), flag(), flag(), flag(), flag(), self._num(rng, 7), self._num(rng, 15)],
-                "q": [[hx(t2b(self._name(rng))), rng.pick(TYPES), self._num(rng, U16) if rng.chance(0.3) else 1] for _ in range(rng.pick([0, 1, 1, 1, 2]))],
+                "hdr": [num(U16), flag(), num(15), flag(), flag(), flag(), flag(), num(7), num(15)],
+                "q": [[hx(t2b(self._name(rng, clean))), rng.pick(TYPES), num(U16) if rng.chance(0.3) else 1] for _ in range(rng.pick([0, 1, 1, 1, 2]))],
                 "an": sec([0, 1, 1, 2, 3]), "ns": sec([0, 0, 0, 1]), "ar": sec([0, 0, 1])}
 
     def _wire_labels(self, rng):
@@ -224,6 +230,9 @@ class Check(PropertyCheck):
                 b = D.build_wire(self._wire_msg(rng)) if rng.chance(0.7) else bytes(rng.pick([0xC0, 0x0C, 0x01, 0x61, 0x00, rng.getrandbits(8)]) for _ in range(rng.randint(0, 40)))
                 off = rng.randint(0, len(b)); ln = rng.randint(0, len(b) - off)
                 yield {"op": "expand", "buf_hex": hx(b), "off": off, "len": ln, "ty": rng.pick(TYPES)}
+            elif r < 95:     # the well-formedness predicate on record data (Lean rdataPlain vs its Python twin)
+                ty = rng.pick(TYPES)
+                yield {"op": "plain", "ty": ty, "data_hex": hx(self._rdata(rng, ty)), "ctx_hex": hx(D.build_wire(self._wire_msg(rng)))}
             else:            # raw
                 n = rng.randint(0, 40)
                 b = bytes(rng.getrandbits(8) for _ in range(n))
@@ -275,6 +284,17 @@ class Check(PropertyCheck):
                 obs = {"r": "err"}
             except Exception as e:
                 obs = {"r": "exc:" + type(e).__name__}
+        elif op == "plain":
+            data, ctx = unhx(case["data_hex"]), unhx(case["ctx_hex"])
+            plain = D.rdata_plain(self.layout, case["ty"], data)
+            buf = ctx + data + b"\xc0\x0c"
+            try:
+                d = domain_names.expand_record_data(buf, len(ctx), len(ctx) + len(data), case["ty"]) \
+                    if domain_names.record_data_can_have_compression(case["ty"]) else data
+                same = "same" if d == data else "changed"
+            except struct.error:
+                same = "err"
+            obs = {"r": "1" if plain else "0", "in_context": same}
         else:
             try:
                 d = domain_names.expand_record_data(unhx(case["buf_hex"]), case["off"], case["off"] + case["len"], case["ty"]) \
@@ -310,6 +330,10 @@ class Check(PropertyCheck):
             if self._well_formed(case):
                 if obs["packed"] == "err": fails.append("roundtrip: well-formed message does not encode")
                 elif obs.get("back") != "ok " + obs["msg"]: fails.append(f"roundtrip: decodes to {obs.get('back')}")
+        elif case["op"] == "plain":
+            # part of "well-formed message ... decodes to the same message": record data without a compression pointer in
+            # a name field of its type is left alone in whatever message it is placed
+            if obs["r"] == "1" and obs["in_context"] != "same": fails.append(f"plain record data {obs['in_context']} by expansion")
         elif case["op"] == "bytes" and obs["r"] != "err":
             # "a decoded message re-encodes to bytes that decode to the same message again"
             if obs["packed"] == "err": fails.append("reencode: decoded message does not encode")
@@ -366,6 +390,8 @@ class Check(PropertyCheck):
                 lines.append(f"pack {tbl} {obs['r'][3:]}")
                 if obs["packed"] != "err": lines.append(f"unpack {tbl} {obs['packed']}")
             return lines
+        if op == "plain":
+            return [f"plain {case['ty']} {case['data_hex']}"]
         if op == "name":
             return [f"name {D.idna_table([unhx(case['buf_hex'])])} {case['buf_hex']} {case['off']}"]
         return [f"expand {case['buf_hex']} {case['off']} {case['len']} {case['ty']}"]
@@ -387,7 +413,7 @@ class Check(PropertyCheck):
 
     # ------------------------------------------------------------------ evidence
     def classify(self, case, obs):
-        if case["op"] != "msg" and case.get("buf_hex") == "-": return None
+        if case["op"] in ("bytes", "name", "expand") and case.get("buf_hex") == "-": return None
         return json.dumps(case, sort_keys=True)
 
     def branches(self, case, obs):
@@ -396,6 +422,8 @@ class Check(PropertyCheck):
         if op == "msg":
             out.append("msg:" + ("wf" if self._well_formed(case) else "not-wf") + ":" + ("enc-ok" if obs["packed"] != "err" else "enc-err"))
             if "back" in obs and obs["back"] != "ok " + obs["msg"]: out.append("msg:changed-by-roundtrip")
+        elif op == "plain":
+            out.append(f"plain:{obs['r']}:{obs['in_context']}")
         else:
             b = unhx(case["buf_hex"])
             out.append(f"{op}:" + obs["r"][:3].strip())
